@@ -21,6 +21,7 @@ import LzmaVerif.Generated.TwinParams
 import Driver.MfHc4
 import Driver.MfBt4
 import Driver.EncFast
+import Driver.EncNormal
 /-! Request handlers: each maps a parsed request to the canonical answer line. -/
 namespace Driver
 open LzmaVerif
@@ -382,6 +383,7 @@ def handle (cmd : String) (a : Args) : String :=
   match cmd with
   | "twin.extend" | "twin.norm" => handleTwin cmd a
   | "encfast.parse" | "lzma.parse" => handleEncFast cmd a
+  | "encnormal.parse" => handleEncNormalParse a
   | "mf.trace" => if a.get? "kind" == some "bt4" then handleMfBt4 a else handleMfTraceHc4 a
   | "lzdec.run" => handleLzDec a
   | "encwin.trace" => handleEncWin a
